@@ -1,2 +1,70 @@
-From Coq Require Import List.
-Theorem C08_placeholder : True. Proof. exact I. Qed.
+(* Property C08: selection returns only members of its input and obeys its dominance rule.
+   Statements only; proofs are in Proofs/SelectionProofs.v. *)
+From Coq Require Import ZArith List Bool Arith Permutation.
+From Bingo Require Import Model.Best Model.Selection Proofs.SelectionProofs.
+Import ListNotations.
+Local Open Scope nat_scope.
+
+(* 1. age-fitness, any selection size, any target, any legal tape of index samples: the caller's list is
+      permuted in place, the result is a prefix of it, at least [target] and at most the input size *)
+Theorem C08_age_fitness_returns_members_in_number :
+  forall sel pop target tape ret after,
+  age_fitness sel pop target tape = Ok (ret, after) ->
+  Permutation after pop /\ (exists k, ret = firstn k after) /\ target <= length ret <= length pop.
+Proof. exact age_fitness_spec. Qed.
+Print Assumptions C08_age_fitness_returns_members_in_number.
+
+(* 2. the removal decision of one scan: every index chosen for removal was sampled, and is NaN or is
+      dominated (no older, no worse, both non-NaN) by a sampled index that SURVIVES this scan; no more
+      than the number still needed are chosen *)
+Theorem C08_age_fitness_removal_justified :
+  forall sel inds pop needed, NoDup inds -> 1 <= needed ->
+  let s := find_inds_for_removal sel inds pop needed in
+  (forall r, In r s -> In r inds /\
+     (sfit (getp pop r) = None \/
+      exists w, In w inds /\ ~ In w s /\
+        exists fw fr, sfit (getp pop w) = Some fw /\ sfit (getp pop r) = Some fr /\
+                      (sage (getp pop w) <= sage (getp pop r))%Z /\ (fw <= fr)%Z)) /\
+  NoDup s /\ length s <= needed.
+Proof. exact find_inds_spec. Qed.
+Print Assumptions C08_age_fitness_removal_justified.
+
+(* 3. tournament (after fix F6): exactly [target] winners, each a member of its own sample, nobody in
+      the sample strictly fitter, NaN only if the whole sample is NaN *)
+Theorem C08_tournament_winner_is_least :
+  forall size pop target tape ws, tournament size pop target tape = Ok ws ->
+  length ws = target /\
+  Forall2 (fun w cell =>
+     length cell = size /\ In w cell /\ w < length pop /\
+     (forall m, In m cell -> klt (sfit (getp pop m)) (sfit (getp pop w)) = false) /\
+     (sfit (getp pop w) = None -> forall m, In m cell -> sfit (getp pop m) = None))
+   ws (firstn target tape).
+Proof. exact tournament_spec. Qed.
+Print Assumptions C08_tournament_winner_is_least.
+
+(* 4. deterministic crowding (after fix F5): exactly [target]; slot j holds parent j unless its
+      distance-paired child is strictly better or the parent is NaN *)
+Theorem C08_crowding_replaces_only_by_better_paired_child :
+  forall pop target close out, crowding pop target close = Ok out ->
+  let h := Nat.div (length pop) 2 in
+  length out = target /\ target <= h /\
+  forall j, j < target ->
+    let par := getp pop j in let ch := getp pop (h + paired j close) in
+    nth j out dflt = par \/
+    (nth j out dflt = ch /\ (sfit par = None \/ klt (sfit ch) (sfit par) = true)).
+Proof.
+  intros pop target close out H. destruct (crowding_spec _ _ _ _ H) as (H1 & H2 & H3).
+  split; [exact H1|]. split; [exact H2|]. intros j Hj. cbn zeta. rewrite (H3 j Hj).
+  apply most_fit_det_spec.
+Qed.
+Print Assumptions C08_crowding_replaces_only_by_better_paired_child.
+
+(* non-vacuity: concrete runs reach Ok with removals, NaN, ties *)
+Example C08_example :
+  age_fitness 2 [mkInd 0 1 (Some 5); mkInd 1 0 (Some 3); mkInd 2 2 None; mkInd 3 0 (Some 3)]%Z 2
+              [[0;1]; [0;2]]
+  = Ok ([mkInd 3 0 (Some 3); mkInd 1 0 (Some 3)], [mkInd 3 0 (Some 3); mkInd 1 0 (Some 3); mkInd 2 2 None; mkInd 0 1 (Some 5)])%Z
+  /\ tournament 2 [mkInd 0 0 None; mkInd 1 0 (Some 4); mkInd 2 0 (Some 1)]%Z 2 [[0;1];[1;2]] = Ok [1; 2]
+  /\ crowding [mkInd 0 0 (Some 2); mkInd 1 0 None; mkInd 2 0 (Some 1); mkInd 3 0 (Some 7)]%Z 2 [false]
+     = Ok [mkInd 0 0 (Some 2); mkInd 2 0 (Some 1)]%Z.
+Proof. vm_compute. repeat split; reflexivity. Qed.
